@@ -1,0 +1,19 @@
+//! Verification hooks (feature `verif-hooks`, off by default).
+//!
+//! Nothing here changes behaviour unless a hook is armed by a verification harness.
+
+use std::cell::Cell;
+
+thread_local! {
+    static WRAPPER_CREATED_AT: Cell<Option<u64>> = const { Cell::new(None) };
+}
+
+/// Fix the `created_at` of kind-445 wrapper events built on this thread (`None` = wall clock).
+pub fn set_wrapper_created_at(ts: Option<u64>) {
+    WRAPPER_CREATED_AT.with(|c| c.set(ts));
+}
+
+/// The armed wrapper timestamp for this thread, if any.
+pub fn wrapper_created_at() -> Option<u64> {
+    WRAPPER_CREATED_AT.with(|c| c.get())
+}
